@@ -20,8 +20,24 @@ CHECKS = {
  'C09': ('tlc-cgt', 'TLA+ action property OthersUntouched + two-instance projection law (MC_CgtLaw) model-checked; implementation compared with itself on each security\'s projection'),
  'C10': ('tlc-cgt', 'TLA+ two-instance laws (MC_CgtLaw: rescale, split+unsplit) model-checked with TLC; the same relation demanded of two implementation runs; split families replayed against the spec'),
  'C11': ('tlc-cgt', 'TLA+ spec Cgt.tla cost events (nondeterministic apportionment, s122 refusal) model-checked; TLC observation pass (Obs_Cgt.tla) judges the apportionment recorded by the verif hooks'),
+ 'C13': ('tlc-dsl', 'TLA+ recogniser/meaning function Dsl.tla (written from the README syntax table) evaluated by TLC over every command shape x lexical style x single-token corruption; verdicts compared with the real pest parser incl. error position'),
+ 'C14': ('tlc-dsl', 'TLA+ Dsl.tla writer/parser round-trip theorems (RoundTrips, Idempotent) checked by TLC; the real DSL writer byte-compared with the spec Write, parsed back, and round-tripped through serde JSON'),
+ 'C15': ('tlc-cli', 'TLA+ step machine Cli.tla (every command x fault placement; FailureIsClean, DefaultPdfNeverClobbers) model-checked; every scenario staged on disk and run through the real binary; Validator.tla rule and magnitude-class totality replayed in-process'),
+ 'C16': ('tlc-det', 'TLA+ Determinism.tla: comparators proved strict total orders on every key set by TLC (any hash order sorts to one output); ledgers for those key sets run repeatedly in fresh processes: byte-identical and canonically ordered'),
+ 'C17': ('tlc-format', 'TLA+ Format.tla (RoundPence, Gbp, labels) evaluated by TLC for every midpoint and magnitude boundary; strings compared with the plain-text, JSON and PDF (text runs via verif hook) front-ends'),
+ 'C18': ('tlc-schwab', 'TLA+ two-pass machine Schwab.tla model-checked over every export of <= 3/4 rows (invariants: cancel-one, nothing silent, totals); real converter output parsed and compared, row-order and chunking laws'),
+ 'C19': ('tlc-schwab', 'TLA+ Awards.tla look-up evaluated by TLC over every awards file of <= 2/3 entries around the deposit; real converter compared at 5 base dates'),
+ 'C20': ('tlc-mcp', 'TLA+ Mcp.tla model-checked (safety + liveness, all interleavings); sessions recorded from the real `cgt-tool mcp` process validated by TLC against the spec (McpTrace.tla) with binding self-tests'),
  'C12': ('tlc-cgt', 'TLA+ two-instance extension law (MC_CgtLaw: prefix vs prefix + later transactions) model-checked with TLC; the same relation demanded of two implementation runs, also across a leap-year end'),
 }
+ENGINES_EXTRA = [
+ ('tlc-dsl', 'spec/Dsl.tla', 'TLA+ Dsl.tla token-level recogniser / writer with generator MC_Dsl.tla; TLC + Rust replay (replay_dsl)'),
+ ('tlc-cli', 'spec/Cli.tla', 'TLA+ Cli.tla / Validator.tla with MC_Cli.tla, MC_Misc.tla; TLC + process-level replay of the cgt-tool binary (lib/vcheck/cli.py) + replay_misc'),
+ ('tlc-det', 'spec/Determinism.tla', 'TLA+ Determinism.tla with MC_Determinism.tla; TLC + repeated fresh-process runs (lib/vcheck/det.py)'),
+ ('tlc-format', 'spec/Format.tla', 'TLA+ Format.tla with MC_Format.tla; TLC + Rust replay (replay_format) incl. PDF text runs'),
+ ('tlc-schwab', 'spec/Schwab.tla', 'TLA+ Schwab.tla / Awards.tla with MC_Schwab.tla, MC_Awards.tla; TLC + Rust replay (replay_schwab)'),
+ ('tlc-mcp', 'spec/Mcp.tla', 'TLA+ Mcp.tla with MC_Mcp.tla and trace specification McpTrace.tla; TLC trace validation of sessions recorded from the real server (lib/vcheck/mcp.py)'),
+]
 ENGINES = [
  {'name': 'tlc-cgt', 'path': 'spec/Cgt.tla', 'serves_properties': [p for p, (e, _) in CHECKS.items() if e == 'tlc-cgt'],
   'kind_free_text': 'TLA+ state machine of the share matcher (Cgt.tla) with generator MC_Cgt.tla, two-instance law model MC_CgtLaw.tla and observation pass Obs_Cgt.tla; TLC + Rust replay harness (harness/cgtv)'},
@@ -30,6 +46,8 @@ ENGINES = [
  {'name': 'tlc-fx', 'path': 'spec/Fx.tla', 'serves_properties': [p for p, (e, _) in CHECKS.items() if e == 'tlc-fx'],
   'kind_free_text': 'TLA+ Fx.tla load/convert state machine with MC_Fx.tla; TLC + Rust replay harness incl. the cgt-tool binary'},
 ]
+for n, path, txt in ENGINES_EXTRA:
+    ENGINES.append({'name': n, 'path': path, 'serves_properties': [p for p, (e, _) in CHECKS.items() if e == n], 'kind_free_text': txt})
 checks = []
 for p in props:
     if p not in CHECKS:
